@@ -242,6 +242,10 @@ type Method struct {
 	Prods   []int    // productions (indices within the rule) it is meant to serve
 	ID      int      // id passed to H.Act (global number of its first production)
 	Results int      // number of results (1 normally)
+	// Variadic: the last parameter, an unnamed slice type []X, is written
+	// "...X" (the same parameter type as far as binding is concerned; the
+	// generated call has to spread the slice).
+	Variadic bool
 }
 
 // Plan is a binding plan.
@@ -348,7 +352,8 @@ func NewPlan(r *rng.R, g *gram.Grammar, o *Oracle) *Plan {
 					if pi == 0 && r.Chance(1, 2) {
 						name = "on_" + rule.Name
 					}
-					p.Methods = append(p.Methods, Method{Name: name, Rule: ri, Params: params, Result: p.RuleType[ri].Type, Prods: []int{pi}, ID: id, Results: 1})
+					variadic := len(params) > 0 && strings.HasPrefix(params[len(params)-1], "[]") && r.Chance(1, 3)
+					p.Methods = append(p.Methods, Method{Name: name, Rule: ri, Params: params, Result: p.RuleType[ri].Type, Prods: []int{pi}, ID: id, Results: 1, Variadic: variadic})
 				}
 				id++
 			}
@@ -513,6 +518,9 @@ func (p *Plan) Harness(bounds bool) string {
 		args := make([]string, len(m.Params))
 		for i, pt := range m.Params {
 			params[i] = fmt.Sprintf("a%d %s", i, pt)
+			if m.Variadic && i == len(m.Params)-1 && strings.HasPrefix(pt, "[]") {
+				params[i] = fmt.Sprintf("a%d ...%s", i, strings.TrimPrefix(pt, "[]"))
+			}
 			args[i] = fmt.Sprintf("nodeOf(p.H, a%d)", i)
 		}
 		call := fmt.Sprintf("p.H.Act(%d", m.ID)
